@@ -45,6 +45,8 @@ def run(chk, repo):
     chk.doc("R19.3", "offset resolution of the descriptors (shared with "
                      "C19): where a device's outputs land in the frame")
     c19.descs(chk, repo)
+    from . import c12
+    c12.every_frame(chk, repo)
     chk.doc("R30.4", "recorded counter positions are per packet")
     per_instance_rule(chk, repo, "R30.4", ["ebpfcat.ebpfcat.SterilePacket"], "one group checks and "
                       "clears working counters at another group's positions")
